@@ -3,6 +3,11 @@
 Engine F: the predictor, corrector, boundary fill and (implicit scheme) fixed-point map and
 convergence measure are extracted from the kernels as formulas and compared with the
 specification written from the property statement.  Plus dispatch / argument-role agreement.
+
+Verdicts: a formula comparison is decisive (HOLDS / VIOLATED, the latter with the name of the wrong variant the
+code equals when it is one of the known ones); whatever prevents extraction or comparison is UNDECIDED.  The rules
+on the Python call site (argument roles, point order, work-array storage, interpolation before evaluation, loop
+test) are three-valued: VIOLATED only for a recognised wrong form.
 """
 from __future__ import annotations
 
@@ -12,22 +17,54 @@ import re
 
 import sympy as sp
 from sympy import Symbol, Rational, Integer
+from sympy.core.function import AppliedUndef
 
-from ..core import src, AnalysisError
+from ..core import src, guards_of
 from .. import units as U
 from ..symx import (SymExec, Arr, ITE, Wrap, PI, make_args, Undecided, canon_rel, consistent, collect_ites,
                     alg_equal)
 from ..kernels import SPLINE_HANDLERS, S2, FEQ, h_cross, h_scalar2
 from .. import agree
 
+WORK = ("drPhi_0", "dthetaPhi_0", "drPhi_k", "dthetaPhi_k", "endPts_k1_q", "endPts_k1_r", "endPts_k2_q", "endPts_k2_r")
 EXPL = "general_poloidal_advection_step_expl"
 IMPL = "general_poloidal_advection_step_impl"
 
 
+def _h_max(ex, call):
+    if len(call.args) != 2 or call.keywords:
+        raise Undecided(f"call `{src(call)[:60]}`")
+    a, b = ex.ev(call.args[0]), ex.ev(call.args[1])
+    return ITE(sp.Gt(b, a), b, a)
+
+
+def _h_min(ex, call):
+    if len(call.args) != 2 or call.keywords:
+        raise Undecided(f"call `{src(call)[:60]}`")
+    a, b = ex.ev(call.args[0]), ex.ev(call.args[1])
+    return ITE(sp.Lt(b, a), b, a)
+
+
 def setup(fn):
     args = make_args(fn, funcs={"eval_spline_2d_cross": h_cross, "eval_spline_2d_scalar": h_scalar2})
-    ex = SymExec(fn, args, calls=dict(SPLINE_HANDLERS))
+    calls = dict(SPLINE_HANDLERS)
+    calls.update({"max": _h_max, "min": _h_min})
+    ex = SymExec(fn, args, calls=calls)
     return ex, args
+
+
+def _grid_order_ok(val):
+    """the radial grid is increasing: r_0 < r_max.  A truth assignment that contradicts it is not a case."""
+    r0 = sp.Function("rPts")(Integer(0))
+    rmax = sp.Function("rPts")(Symbol("n0_rPts", integer=True, positive=True) - 1)
+    d = rmax - r0
+    for (k, e), v in val.items():
+        if k in ("lt", "le"):
+            if sp.expand(e - d) == 0 and v:          # r_max - r_0 < 0 (<= 0)
+                return False
+            if sp.expand(e + d) == 0 and not v:      # r_0 - r_max < 0 (<= 0)
+                return False
+    return True
 
 
 def spec_symbols(args):
@@ -177,7 +214,7 @@ def layered_equal(a, b, max_atoms=14):
         for bits in itertools.product([False, True], repeat=len(new)):
             v2 = dict(val)
             v2.update(zip(new, bits))
-            if not consistent(v2):
+            if not consistent(v2) or not _grid_order_ok(v2):
                 continue
             ok, wit = rec(_resolve(a, A, v2), _resolve(b, A, v2), v2)
             if not ok:
@@ -198,14 +235,21 @@ def unify_shapes(e, args):
         if m and m.group(2) in args and isinstance(args[m.group(2)], Arr) and m.group(2) not in ("qPts", "rPts") \
                 and not m.group(2).startswith(("kts", "coeffs")):
             sub[s_] = Symbol("n0_qPts" if m.group(1) == "0" else "n0_rPts", integer=True, positive=True)
+    # a negative constant index counts from the end
+    for a_ in e.atoms(AppliedUndef):
+        nm = str(a_.func)
+        if nm in ("qPts", "rPts") and len(a_.args) == 1 and a_.args[0].is_Integer and a_.args[0] < 0:
+            sub[a_] = a_.func(Symbol("n0_" + nm, integer=True, positive=True) + a_.args[0])
     return e.xreplace(sub) if sub else e
 
 
 _SHAPE_SYM = re.compile(r"^n([01])_(\w+)$")
 
 
-def compare(chk, rule, node, what, code, spec, func, args=None, diagnose=None):
-    """decisive verdict of the formula engine; anything that prevents the comparison is UNDECIDED"""
+def compare(chk, rule, node, what, code, spec, func, args=None, wrong=(), stale=()):
+    """decisive verdict of the formula engine; anything that prevents the comparison is UNDECIDED.
+    `wrong`: (diagnosis, formula) pairs of known wrong variants of the specification: when the code differs from the
+    specification and equals one of them the diagnosis names the defect"""
     try:
         if args is not None:
             code = unify_shapes(code, args)
@@ -216,13 +260,20 @@ def compare(chk, rule, node, what, code, spec, func, args=None, diagnose=None):
     why = "extracted formula equals the specification"
     if not ok:
         why = f"extracted formula differs from the specification: {wit}"
-        if diagnose is not None:
+        left_over = sorted({str(a_.func) for a_ in code.atoms(AppliedUndef) if str(a_.func) in stale}) \
+            if isinstance(code, sp.Basic) else []
+        if left_over:
+            why = (f"the formula reads cells of the work array(s) {left_over} that this call has not written on every path: "
+                   "the arrays persist between calls, so values left over from the previous step enter the result - " + why)
+            wrong = ()
+        for label, variant in wrong:
             try:
-                d = diagnose(code)
+                same, _w = layered_equal(code, variant)
             except Exception:
-                d = None
-            if d:
-                why = d + " - " + why
+                continue
+            if same:
+                why = label + " - " + why
+                break
     chk.ob(rule, node, what, ok, why, file=U.ADVK, func=func,
            facts={"code": str(code)[:400], "spec": str(spec)[:400]})
     return ok
@@ -236,39 +287,265 @@ def cell(ex, name, idx):
     return a.read(list(idx))
 
 
+def trace_spec(S, x_k=None, clip=False, radius2="foot", half=Rational(1, 2), swap=False, sign=1, mf=None, div0=True):
+    """the characteristic traced back from node (theta_i, r_j) with the drift (-d_r phi, d_theta phi)/(r B0):
+    predictor x* = x - F(x) dt/B0 and trapezoidal foot x - 1/2 (F(x) + F(x_k)) dt/B0, where x_k is the predictor
+    (explicit Heun) or the current iterate (implicit scheme; the new radius is then clipped to the domain).
+    The keyword options build the WRONG variants used to name a defect (radius of the second-stage drift, step
+    fraction, exchanged derivatives, sign, step factor, missing 1/r of the first stage)."""
+    mf = S["dt"] / S["B0"] if mf is None else mf
+    d_r, d_th = (S["dth_phi"], S["dr_phi"]) if swap else (S["dr_phi"], S["dth_phi"])
+    den0 = S["r"] if div0 else Integer(1)
+    F0_th = d_r(S["q"], S["r"]) / den0
+    F0_r = d_th(S["q"], S["r"]) / den0
+    th1 = Wrap(S["q"] - sign * F0_th * mf)
+    r1 = S["r"] + sign * F0_r * mf
+    th_k, r_k = (th1, r1) if x_k is None else x_k
+    inside = sp.Not(sp.Or(sp.Lt(r_k, S["r0"]), sp.Gt(r_k, S["rmax"])))
+    den = r_k if radius2 == "foot" else S["r"]
+    Fk_th = ITE(inside, d_r(th_k, r_k) / den, Integer(0))
+    Fk_r = ITE(inside, d_th(th_k, r_k) / den, Integer(0))
+    th2 = Wrap(S["q"] - sign * half * (F0_th + Fk_th) * mf)
+    r2 = S["r"] + sign * half * (F0_r + Fk_r) * mf
+    if clip:
+        r2 = ITE(sp.Lt(r2, S["r0"]), S["r0"], ITE(sp.Gt(r2, S["rmax"]), S["rmax"], r2))
+    return {"th1": th1, "r1": r1, "th2": th2, "r2": r2}
+
+
+STALE_IT = ("drPhi_0", "dthetaPhi_0", "drPhi_k", "dthetaPhi_k", "endPts_k2_q", "endPts_k2_r")
+
+WRONG_TRACES = (
+    ("the drift at the second point (predictor / current iterate) is divided by the node radius r_j instead of the "
+     "radius of that point: the corrector does not use the drift (-d_r phi, d_theta phi)/(r B0) there, the foot is not "
+     "the trapezoidal-rule foot (first order only when the drift has a radial component)", dict(radius2="node")),
+    ("the trapezoidal average lacks its factor 1/2: the foot is displaced by the sum of the two drifts, twice too far",
+     dict(half=Integer(1))),
+    ("the derivatives d_r phi and d_theta phi are exchanged: the drift is not (-d_r phi, d_theta phi)/(r B0)", dict(swap=True)),
+    ("the characteristic is traced in the wrong time direction (sign of the displacement reversed)", dict(sign=-1)),
+    ("the first-stage drift lacks its factor 1/r", dict(div0=False)),
+)
+
+
+def wrong_traces(S, key, x_k=None, clip=False):
+    out = []
+    for label, kw in WRONG_TRACES:
+        out.append((label, trace_spec(S, x_k=x_k, clip=clip, **kw)[key]))
+    out.append(("the step factor is dt*B0 (or dt/2*B0) instead of dt/B0 (dt/(2 B0)): wrong for every B0 != 1",
+                trace_spec(S, x_k=x_k, clip=clip, mf=S["dt"] * S["B0"])[key]))
+    return out
+
+
+def wrong_fills(S, th_foot, r_foot, nul):
+    inside = S2(Wrap(th_foot), r_foot, 0, 0, *S["pol"])
+    lo, hi = sp.Lt(r_foot, S["r0"]), sp.Gt(r_foot, S["rmax"])
+    feq = lambda rr: FEQ(rr, S["v"], *S["consts"])      # noqa: E731
+    nulf = ITE(lo, Integer(0), ITE(hi, Integer(0), inside))
+    return (
+        ("feet inside the inner radius take the equilibrium at the foot instead of the equilibrium at the inner radius",
+         ITE(nul, nulf, ITE(lo, feq(r_foot), ITE(hi, feq(r_foot), inside)))),
+        ("feet outside the outer radius take the equilibrium at the outer radius instead of the equilibrium at the foot",
+         ITE(nul, nulf, ITE(lo, feq(S["r0"]), ITE(hi, feq(S["rmax"]), inside)))),
+        ("the two boundary modes are exchanged: the null-boundary mode fills with the equilibrium and vice versa",
+         ITE(nul, ITE(lo, feq(S["r0"]), ITE(hi, feq(r_foot), inside)), nulf)),
+        ("the angle of the foot is not taken modulo 2 pi before the spline is evaluated",
+         fill_spec(S, th_foot, r_foot, nul).xreplace({Wrap(th_foot): th_foot}) if not isinstance(th_foot, Wrap) else None),
+    )
+
+
 def check_explicit(chk, mod, modname=U.ADVK, qname=EXPL):
     fn = mod.func(qname)
     chk.functions.add(f"{modname}:{qname}")
     ex, args = setup(fn)
     try:
         ex.run()
+        S = spec_symbols(args)
+        i, j = S["i"], S["j"]
+        got = {n: cell(ex, n, [i, j]) for n in ("endPts_k1_q", "endPts_k1_r", "endPts_k2_q", "endPts_k2_r", "f")}
     except Undecided as e:
         chk.ob("F1-extraction", fn, qname, None, f"kernel outside the extractable fragment: {e}", file=modname, func=qname)
         return
-    S = spec_symbols(args)
-    i, j = S["i"], S["j"]
-    mf = S["dt"] / S["B0"]
-    F0_th = S["dr_phi"](S["q"], S["r"]) / S["r"]
-    F0_r = S["dth_phi"](S["q"], S["r"]) / S["r"]
-    th1 = Wrap(S["q"] - F0_th * mf)
-    r1 = S["r"] + F0_r * mf
-    got_th1 = ex.env["endPts_k1_q"].read([i, j])
-    got_r1 = ex.env["endPts_k1_r"].read([i, j])
-    compare(chk, "F1-predictor", fn, "theta* = W(theta_i - (d_r phi/r_j) dt/B0)", got_th1, th1, qname)
-    compare(chk, "F1-predictor", fn, "r* = r_j + (d_theta phi/r_j) dt/B0", got_r1, r1, qname)
-    inside = sp.Not(sp.Or(sp.Lt(r1, S["r0"]), sp.Gt(r1, S["rmax"])))
-    F1_th = ITE(inside, S["dr_phi"](th1, r1) / r1, Integer(0))
-    F1_r = ITE(inside, S["dth_phi"](th1, r1) / r1, Integer(0))
-    th2 = Wrap(S["q"] - Rational(1, 2) * (F0_th + F1_th) * mf)
-    r2 = S["r"] + Rational(1, 2) * (F0_r + F1_r) * mf
-    got_th2 = ex.env["endPts_k2_q"].read([i, j])
-    got_r2 = ex.env["endPts_k2_r"].read([i, j])
+    sweep_ranges(chk, fn, [(fn.body, ex.env)], args, modname, qname)
+    T = trace_spec(S)
+    compare(chk, "F1-predictor", fn, "theta* = W(theta_i - (d_r phi/r_j) dt/B0)", got["endPts_k1_q"], T["th1"], qname,
+            args, wrong_traces(S, "th1"))
+    compare(chk, "F1-predictor", fn, "r* = r_j + (d_theta phi/r_j) dt/B0", got["endPts_k1_r"], T["r1"], qname,
+            args, wrong_traces(S, "r1"))
     # endPts_k2_q may have been wrapped once more inside the fill branch: idempotent
-    compare(chk, "F1-corrector", fn, "theta_foot = W(theta_i - 1/2 (F_th(x) + F_th(x*)) dt/B0)", Wrap(got_th2), th2, qname)
-    compare(chk, "F1-corrector", fn, "r_foot = r_j + 1/2 (F_r(x) + F_r(x*)) dt/B0", got_r2, r2, qname)
+    compare(chk, "F1-corrector", fn, "theta_foot = W(theta_i - 1/2 (F_th(x) + F_th(x*)) dt/B0)", Wrap(got["endPts_k2_q"]),
+            T["th2"], qname, args, wrong_traces(S, "th2"), WORK)
+    compare(chk, "F1-corrector", fn, "r_foot = r_j + 1/2 (F_r(x) + F_r(x*)) dt/B0", got["endPts_k2_r"], T["r2"], qname,
+            args, wrong_traces(S, "r2"), WORK)
     nul = args["nulBound"]
-    got_f = ex.env["f"].read([i, j])
-    compare(chk, "F1-boundary-fill", fn, "f[i,j] = fill(theta_foot, r_foot)", got_f, fill_spec(S, th2, r2, nul), qname)
+    # the fill is a function of the foot: compared on the foot the kernel computed (its correctness is the rule above),
+    # so that a wrong foot is reported once, by the rule that owns it
+    th_f, r_f = unify_shapes(got["endPts_k2_q"], args), unify_shapes(got["endPts_k2_r"], args)
+    compare(chk, "F1-boundary-fill", fn, "f[i,j] = fill(theta_foot, r_foot)", got["f"], fill_spec(S, th_f, r_f, nul), qname,
+            args, [w_ for w_ in wrong_fills(S, th_f, r_f, nul) if w_[1] is not None])
+
+
+def _top_assign_names(stmts):
+    out = []
+    for st in stmts:
+        if isinstance(st, ast.Assign):
+            out += [t.id for t in st.targets if isinstance(t, ast.Name)]
+        elif isinstance(st, ast.AugAssign) and isinstance(st.target, ast.Name):
+            out.append(st.target.id)
+    return out
+
+
+def node_sweeps(loops, body):
+    """the sweeps over the nodes that make up one pass of the iteration: [(outer loop, statements of the outer body
+    before the inner loop, inner loop)].  Several sweeps are treated as one when every array they write is accessed at
+    the node of the sweep only and no scalar is carried from one sweep to the next (then their order per node is the
+    order of the statements, as in one fused sweep)."""
+    if not loops:
+        raise Undecided("the iteration body contains no loop over the nodes")
+    k0, k1 = body.index(loops[0]), body.index(loops[-1])
+    if any(not isinstance(st, ast.For) for st in body[k0:k1 + 1]):
+        raise Undecided("statements between the sweeps of one pass")
+    out = []
+    for outer in loops:
+        inner = outer.body[-1] if outer.body else None
+        if not (isinstance(outer.target, ast.Name) and isinstance(inner, ast.For) and isinstance(inner.target, ast.Name)):
+            raise Undecided("the iteration body is not a double loop over the nodes")
+        pre = outer.body[:-1]
+        if any(isinstance(n, (ast.For, ast.While)) for st in pre + inner.body for n in ast.walk(st)):
+            raise Undecided("nested loops inside a sweep over the nodes")
+        out.append((outer, pre, inner))
+    if len(out) > 1:
+        written = {n.value.id for o, _p, _i in out for n in ast.walk(o)
+                   if isinstance(n, ast.Subscript) and isinstance(n.ctx, ast.Store) and isinstance(n.value, ast.Name)}
+        stored = []
+        for o, p, inn in out:
+            for n in ast.walk(o):
+                if isinstance(n, ast.Subscript) and isinstance(n.value, ast.Name) and n.value.id in written:
+                    ix = n.slice.elts if isinstance(n.slice, ast.Tuple) else [n.slice]
+                    if [src(x) for x in ix] != [o.target.id, inn.target.id]:
+                        raise Undecided(f"`{src(n)}` is not an access at the node of its sweep: the sweeps cannot be fused")
+            stored.append({n.id for n in ast.walk(o) if isinstance(n, ast.Name) and isinstance(n.ctx, ast.Store)} -
+                          {o.target.id, inn.target.id, "norm"})
+        for a_, (o, p, inn) in enumerate(out):
+            loaded = {n.id for n in ast.walk(o) if isinstance(n, ast.Name) and isinstance(n.ctx, ast.Load)}
+            first_store = {}
+            for n in ast.walk(o):
+                if isinstance(n, ast.Name) and isinstance(n.ctx, ast.Store):
+                    first_store.setdefault(n.id, n.lineno)
+            for b_, names in enumerate(stored):
+                if b_ != a_ and (names & loaded) - set(first_store):
+                    raise Undecided(f"scalar(s) {sorted((names & loaded) - set(first_store))} carried from one sweep to another")
+    return out
+
+
+def sweep_ranges(chk, fn, regions, args, modname, qname):
+    """every loop over the nodes visits all of them: range(number of theta points) / range(number of r points)"""
+    nq = Symbol("n0_qPts", integer=True, positive=True)
+    nr = Symbol("n0_rPts", integer=True, positive=True)
+    for top in fn.body:
+        env = None
+        for stmts, e_ in regions:
+            if any(top is x for x in stmts):
+                env = e_
+        if env is None:
+            continue
+        for lp in [n for n in ast.walk(top) if isinstance(n, ast.For)]:
+            if not (isinstance(lp.iter, ast.Call) and isinstance(lp.iter.func, ast.Name) and lp.iter.func.id == "range"
+                    and isinstance(lp.target, ast.Name)):
+                continue
+            v = lp.target.id
+            roles = set()
+            for n in ast.walk(lp):
+                if isinstance(n, ast.Subscript) and isinstance(n.value, ast.Name):
+                    ix = n.slice.elts if isinstance(n.slice, ast.Tuple) else [n.slice]
+                    for pos, x in enumerate(ix):
+                        if isinstance(x, ast.Name) and x.id == v:
+                            if len(ix) == 2:
+                                roles.add("q" if pos == 0 else "r")
+                            elif n.value.id in ("qPts", "rPts"):
+                                roles.add("q" if n.value.id == "qPts" else "r")
+            what = f"for {v} in {src(lp.iter)}"
+            if len(roles) != 1:
+                continue
+            role = roles.pop()
+            want, other = (nq, nr) if role == "q" else (nr, nq)
+            axis = "theta" if role == "q" else "r"
+            tex = SymExec(fn, dict(env))
+            try:
+                ra = [unify_shapes(tex.ev(a_), args) for a_ in lp.iter.args]
+            except Undecided as e:
+                chk.ob("F1-sweep-range", lp, what, None, f"loop bounds outside the fragment: {e}", file=modname, func=qname)
+                continue
+            if len(ra) == 3 or not ra or lp.iter.keywords or not all(isinstance(x, sp.Basic) for x in ra):
+                chk.ob("F1-sweep-range", lp, what, None, "strided or unusual range: not decided", file=modname, func=qname)
+                continue
+            lo, hi = (Integer(0), ra[0]) if len(ra) == 1 else (ra[0], ra[1])
+            dlo, dhi = sp.simplify(lo), sp.simplify(hi - want)
+            if dlo == 0 and dhi == 0:
+                chk.ob("F1-sweep-range", lp, what, True, f"the sweep visits every {axis} node", file=modname, func=qname)
+            elif (dlo.is_number and dlo != 0) or (dhi.is_number and dhi != 0):
+                chk.ob("F1-sweep-range", lp, what, False,
+                       f"the sweep over {axis} runs from {lo} to {hi} instead of over all {want} nodes: the nodes left out keep "
+                       "stale values (of f, or of the work arrays of the previous call)", file=modname, func=qname)
+            elif sp.simplify(hi - other) == 0:
+                chk.ob("F1-sweep-range", lp, what, False,
+                       f"the sweep over {axis} uses the number of nodes of the other axis ({hi}): nodes are left out or the "
+                       "index runs past the array whenever the two differ", file=modname, func=qname)
+            else:
+                chk.ob("F1-sweep-range", lp, what, None, f"bounds ({lo}, {hi}) not comparable with {want}: not decided",
+                       file=modname, func=qname)
+
+
+def convergence_test(chk, w, ex, args, modname, qname):
+    """the while loop runs exactly while the measure exceeds the tolerance and is entered"""
+    nrm, tol = Symbol("norm", real=True), Symbol("tol", positive=True)
+    tex = SymExec(ast.FunctionDef(name="_t", args=ast.arguments(posonlyargs=[], args=[], kwonlyargs=[], kw_defaults=[],
+                                                                   defaults=[]), body=[], decorator_list=[], lineno=w.lineno),
+                  {"norm": nrm, "tol": tol})
+    want = canon_rel(sp.Gt(nrm, tol))
+    verdict, why = None, None
+    try:
+        c = tex.ev(w.test)
+    except Undecided as e:
+        c = None
+        why = f"loop test outside the fragment: {e}"
+    if c is not None:
+        if isinstance(c, (sp.And, sp.Or)) or c in (sp.true, sp.false):
+            if c is sp.true:
+                verdict, why = False, "the loop test is constant true: the iteration does not stop at convergence"
+            elif c is sp.false:
+                verdict, why = False, "the loop test is constant false: the fixed-point iteration is never executed"
+            else:
+                why = "compound loop test: whether the loop runs until the measure is below tol is not decided"
+        else:
+            got = canon_rel(c)
+            if got == want:
+                verdict = True
+            elif canon_rel(sp.Not(c)) in (want, canon_rel(sp.Ge(nrm, tol))):
+                verdict, why = False, ("the loop test is inverted: it continues while the measure is BELOW the tolerance, so "
+                                       "the iteration stops (or never starts) while the iterates still move: the foot is "
+                                       "not the converged solution of the implicit trapezoidal rule")
+            else:
+                why = f"loop test `{src(w.test)}` is not the comparison of the measure with the tolerance"
+    # initial measure
+    norm0 = ex.env.get("norm")
+    entered = None
+    if isinstance(norm0, sp.Basic):
+        d = sp.simplify(norm0.xreplace({args["tol"]: tol}) - tol)
+        if d.is_positive:
+            entered = True
+        elif d.is_positive is False or d == 0:
+            entered = False
+    if verdict is True and entered is True:
+        chk.ob("F1-convergence-test", w, src(w.test), True,
+               "iteration continues exactly while the measure exceeds tol and is entered at least once", file=modname, func=qname)
+    elif verdict is False:
+        chk.ob("F1-convergence-test", w, src(w.test), False, why, file=modname, func=qname)
+    elif verdict is True and entered is False:
+        chk.ob("F1-convergence-test", w, src(w.test), False,
+               f"the measure is initialised to {norm0}, not above tol: the loop is never entered and the foot stays the "
+               "explicit Euler predictor", file=modname, func=qname)
+    else:
+        chk.ob("F1-convergence-test", w, src(w.test), None,
+               why or f"the initial measure `{norm0}` is not provably above tol", file=modname, func=qname)
 
 
 def check_implicit(chk, mod, modname=U.ADVK, qname=IMPL):
@@ -276,7 +553,15 @@ def check_implicit(chk, mod, modname=U.ADVK, qname=IMPL):
     chk.functions.add(f"{modname}:{qname}")
     whiles = [n for n in fn.body if isinstance(n, ast.While)]
     if len(whiles) != 1:
-        raise AnalysisError(f"C12: expected one top-level while loop in {qname}")
+        nested = [n for n in ast.walk(fn) if isinstance(n, ast.While)]
+        if not nested:
+            chk.ob("F1-fixed-point-map", fn, qname, False,
+                   "the implicit kernel contains no iteration at all: the foot is not the converged solution of the "
+                   "implicit trapezoidal rule", file=modname, func=qname)
+            return
+        chk.ob("F1-extraction", fn, qname, None, "expected one top-level while loop (the fixed-point iteration)",
+               file=modname, func=qname)
+        return
     w = whiles[0]
     k = fn.body.index(w)
     # ---- phase 1: predictor (statements before the while)
@@ -284,93 +569,374 @@ def check_implicit(chk, mod, modname=U.ADVK, qname=IMPL):
     ex, args = setup(pre)
     try:
         ex.run()
+        S = spec_symbols(args)
+        i, j = S["i"], S["j"]
+        got1 = {n: cell(ex, n, [i, j]) for n in ("endPts_k1_q", "endPts_k1_r")}
     except Undecided as e:
         chk.ob("F1-extraction", fn, qname + " (predictor)", None, f"outside the extractable fragment: {e}", file=modname, func=qname)
         return
-    S = spec_symbols(args)
-    i, j = S["i"], S["j"]
-    mf = S["dt"] / S["B0"]
-    F0_th = S["dr_phi"](S["q"], S["r"]) / S["r"]
-    F0_r = S["dth_phi"](S["q"], S["r"]) / S["r"]
+    sweep_ranges(chk, fn, [(fn.body[:k + 1], ex.env)], args, modname, qname)
+    T0 = trace_spec(S)
     compare(chk, "F1-predictor", fn, "theta* = theta_i - (d_r phi/r_j) dt/B0 (initial iterate)",
-            Wrap(ex.env["endPts_k1_q"].read([i, j])), Wrap(S["q"] - F0_th * mf), qname)
+            Wrap(got1["endPts_k1_q"]), T0["th1"], qname, args, wrong_traces(S, "th1"))
     compare(chk, "F1-predictor", fn, "r* = r_j + (d_theta phi/r_j) dt/B0 (initial iterate)",
-            ex.env["endPts_k1_r"].read([i, j]), S["r"] + F0_r * mf, qname)
-    norm0 = ex.env.get("norm")
-    tol = args["tol"]
-    okn = norm0 is not None and sp.simplify(norm0 - tol) != 0 and sp.simplify(norm0 - tol).is_positive is not False
-    # loop condition: iterate while the measure exceeds the tolerance
-    t = w.test
-    okt = isinstance(t, ast.Compare) and len(t.ops) == 1 and (
-        (isinstance(t.ops[0], ast.Gt) and src(t.left) == "norm" and src(t.comparators[0]) == "tol") or
-        (isinstance(t.ops[0], ast.Lt) and src(t.left) == "tol" and src(t.comparators[0]) == "norm"))
-    chk.ob("F1-convergence-test", w, src(w.test), bool(okt and okn),
-           "iteration continues exactly while the measure exceeds tol and is entered at least once" if okt and okn else
-           f"loop test ok={okt}, initial measure above tol ok={okn} (norm0={norm0})", file=modname, func=qname)
+            got1["endPts_k1_r"], T0["r1"], qname, args, wrong_traces(S, "r1"))
+    convergence_test(chk, w, ex, args, modname, qname)
     # ---- phase 2: one iteration of the map, from a generic iterate (Q, R)
     body = w.body
-    if not (body and isinstance(body[0], ast.Assign) and src(body[0].targets[0]) == "norm"):
-        raise AnalysisError(f"C12: while body of {qname} does not start by resetting the measure")
     loops = [n for n in body if isinstance(n, ast.For)]
-    if len(loops) != 1 or not (loops[0].body and isinstance(loops[0].body[0], ast.For)):
-        raise AnalysisError(f"C12: iteration body of {qname} is not a double loop")
-    inner = loops[0].body[0].body
+    try:
+        passes = node_sweeps(loops, body)
+    except Undecided as e:
+        chk.ob("F1-extraction", w, qname + " (iteration)", None, f"{e}: not extracted", file=modname, func=qname)
+        return
+    before = body[:body.index(loops[0])]
+    after = body[body.index(loops[-1]) + 1:]
     ex2, args2 = setup(ast.FunctionDef(name="_it", args=fn.args, body=[], decorator_list=[], lineno=fn.lineno))
     # state at loop entry: every local as after the predictor phase; the current iterate is generic
-    from ..symx import Arr as _Arr
     for nm, val in ex.env.items():
         if nm not in ("endPts_k1_q", "endPts_k1_r"):
             ex2.env[nm] = val
-    Q, R = _Arr("endPts_k1_q"), _Arr("endPts_k1_r")
+    Q, R = Arr("endPts_k1_q"), Arr("endPts_k1_r")
     ex2.env["endPts_k1_q"], ex2.env["endPts_k1_r"] = Q, R
+    carried = Symbol("norm_carried", real=True)
+    ex2.env["norm"] = carried
+    # the measure restarts from zero in every pass (it is a maximum: without the reset it could never decrease)
+    try:
+        ex2.block(before)
+    except Undecided as e:
+        chk.ob("F1-extraction", w, qname + " (iteration prologue)", None, f"outside the extractable fragment: {e}",
+               file=modname, func=qname)
+        return
+    reset = ex2.env.get("norm")
+    if "norm" in _top_assign_names(after):
+        chk.ob("F1-convergence-reset", w, "norm = 0 at the start of each pass", None,
+               "the measure is assigned after the sweep over the nodes: not decided", file=modname, func=qname)
+    elif reset is carried:
+        anywhere = any(isinstance(n, ast.Name) and n.id == "norm" and isinstance(n.ctx, ast.Store)
+                       for st in before + after for n in ast.walk(st))
+        chk.ob("F1-convergence-reset", w, "norm = 0 at the start of each pass", None if anywhere else False,
+               "the measure is assigned conditionally: not decided" if anywhere else
+               "the measure (a running maximum) is not reset at the start of a pass: it can never fall below its "
+               "initial value above tol, so the iteration cannot terminate", file=modname, func=qname)
+    elif isinstance(reset, sp.Basic) and reset == 0:
+        chk.ob("F1-convergence-reset", w, "norm = 0 at the start of each pass", True,
+               "the maximum over the nodes restarts from zero in every pass", file=modname, func=qname)
+    elif isinstance(reset, sp.Basic) and reset.is_number and reset.is_positive:
+        chk.ob("F1-convergence-reset", w, "norm = 0 at the start of each pass", False,
+               f"the measure restarts from {reset} > 0: it never falls below that value whatever the iterates do",
+               file=modname, func=qname)
+    else:
+        chk.ob("F1-convergence-reset", w, "norm = 0 at the start of each pass", None,
+               f"the measure restarts from `{reset}`: not decided", file=modname, func=qname)
     n_in = Symbol("norm_in", real=True)
     ex2.env["norm"] = n_in
     ex2.env["i"], ex2.env["j"] = i, j
     try:
-        ex2.block(inner)
+        for outer, pre_, inner in passes:
+            ex2.env[outer.target.id] = i
+            for st in pre_:
+                ex2.stmt(st)
+            ex2.env[inner.target.id] = j
+            ex2.block(inner.body)
+        got2 = {n: cell(ex2, n, [i, j]) for n in ("endPts_k1_q", "endPts_k1_r", "endPts_k2_q", "endPts_k2_r")}
+        got_norm = ex2.env.get("norm")
+        if not isinstance(got_norm, sp.Basic):
+            raise Undecided("the measure is not a scalar after the iteration body")
     except Undecided as e:
         chk.ob("F1-extraction", w, qname + " (iteration)", None, f"outside the extractable fragment: {e}", file=modname, func=qname)
         return
     th_k = Wrap(Q.fn(i, j))
     r_k = R.fn(i, j)
-    inside = sp.Not(sp.Or(sp.Lt(r_k, S["r0"]), sp.Gt(r_k, S["rmax"])))
-    Fk_th = ITE(inside, S["dr_phi"](th_k, r_k) / r_k, Integer(0))
-    Fk_r = ITE(inside, S["dth_phi"](th_k, r_k) / r_k, Integer(0))
-    th_n = Wrap(S["q"] - Rational(1, 2) * (F0_th + Fk_th) * mf)
-    r_un = S["r"] + Rational(1, 2) * (F0_r + Fk_r) * mf
-    r_n = ITE(sp.Lt(r_un, S["r0"]), S["r0"], ITE(sp.Gt(r_un, S["rmax"]), S["rmax"], r_un))
+    T = trace_spec(S, x_k=(th_k, r_k), clip=True)
+    th_n, r_n = T["th2"], T["r2"]
+    wr_th = wrong_traces(S, "th2", x_k=(th_k, r_k), clip=True)
+    wr_r = wrong_traces(S, "r2", x_k=(th_k, r_k), clip=True) + [
+        ("the new radius is not clipped to the radial domain [r_0, r_max]", trace_spec(S, x_k=(th_k, r_k), clip=False)["r2"])]
     compare(chk, "F1-fixed-point-map", w, "theta_{k+1} = W(theta_i - 1/2 (F_th(x_0) + F_th(x_k)) dt/B0)",
-            ex2.env["endPts_k1_q"].read([i, j]), th_n, qname)
+            got2["endPts_k1_q"], th_n, qname, args, wr_th, STALE_IT)
     compare(chk, "F1-fixed-point-map", w, "r_{k+1} = clip(r_j + 1/2 (F_r(x_0) + F_r(x_k)) dt/B0)",
-            ex2.env["endPts_k1_r"].read([i, j]), r_n, qname)
+            got2["endPts_k1_r"], r_n, qname, args, wr_r, STALE_IT)
     compare(chk, "F1-fixed-point-map", w, "endPts_k2 holds the new iterate (used by the fill)",
-            ex2.env["endPts_k2_r"].read([i, j]), r_n, qname)
+            got2["endPts_k2_r"], r_n, qname, args, wr_r, STALE_IT)
     compare(chk, "F1-fixed-point-map", w, "endPts_k2_q holds the new angle (used by the fill)",
-            ex2.env["endPts_k2_q"].read([i, j]), th_n, qname)
-    # convergence measure: max over both coordinates, periodic distance in theta
+            got2["endPts_k2_q"], th_n, qname, args, wr_th, STALE_IT)
+    # convergence measure: max over both coordinates, periodic distance in theta, of (new iterate - old iterate); written
+    # on the new iterate the kernel computed (its correctness is the rule above: a wrong map is reported once)
+    th_n, r_n = unify_shapes(got2["endPts_k1_q"], args), unify_shapes(got2["endPts_k1_r"], args)
     d0 = sp.Abs(th_n - th_k)
     dth = ITE(sp.Gt(d0, PI), 2 * PI - d0, d0)
     m1 = ITE(sp.Gt(dth, n_in), dth, n_in)
     dr = sp.Abs(r_n - r_k)
     m2 = ITE(sp.Gt(dr, m1), dr, m1)
-    compare(chk, "F1-convergence-measure", w, "norm = max(norm, periodic |dtheta|, |dr|)", ex2.env["norm"], m2, qname)
+    m_noper = ITE(sp.Gt(dr, ITE(sp.Gt(d0, n_in), d0, n_in)), dr, ITE(sp.Gt(d0, n_in), d0, n_in))
+    compare(chk, "F1-convergence-measure", w, "norm = max(norm, periodic |dtheta|, |dr|)", got_norm, m2, qname, args, [
+        ("the measure is identically its incoming value: the change of the iterate does not enter it (are the new and "
+         "the old iterate the same cells?), so the loop stops after its first pass", n_in),
+        ("the angular change is not measured as a periodic distance: an iterate that crosses theta = 0 looks 2 pi away "
+         "and the loop cannot terminate there", m_noper),
+        ("the radial change does not enter the measure: the iteration stops while the radius still moves", m1),
+        ("the angular change does not enter the measure: the iteration stops while the angle still moves",
+         ITE(sp.Gt(dr, n_in), dr, n_in))])
     # ---- phase 3: fill after convergence (statements after the while), from generic converged foot
     post = ast.FunctionDef(name="_post", args=fn.args, body=fn.body[k + 1:], decorator_list=[], lineno=fn.lineno)
     ex3, args3 = setup(post)
-    ex3.env["rMax"] = ex.env["rMax"]
-    ex3.env["nPts_r"] = ex.env["nPts_r"]
-    ex3.env["nPts_q"] = ex.env["nPts_q"]
-    ex3.env["pi"] = PI
+    for nm, val in ex.env.items():
+        if nm not in args3 and isinstance(val, sp.Basic):
+            ex3.env[nm] = val           # scalar locals of the prologue (rMax, nPts_r, multFactor, ...)
+    ex3.env.setdefault("pi", PI)
     try:
         ex3.run()
-    except Undecided as e:
+        got_f = cell(ex3, "f", [i, j])
+        thf = ex3.env["endPts_k2_q"].fn(i, j)
+        rf = ex3.env["endPts_k2_r"].fn(i, j)
+    except (Undecided, KeyError, AttributeError) as e:
         chk.ob("F1-extraction", fn, qname + " (fill)", None, f"outside the extractable fragment: {e}", file=modname, func=qname)
         return
-    thf = ex3.env["endPts_k2_q"].fn(i, j)
-    rf = ex3.env["endPts_k2_r"].fn(i, j)
+    sweep_ranges(chk, fn, [(fn.body[k + 1:], ex3.env)], args3, modname, qname)
     S3 = spec_symbols(args3)
-    compare(chk, "F1-boundary-fill", fn, "f[i,j] = fill(theta_foot, r_foot)", ex3.env["f"].read([i, j]),
-            fill_spec(S3, thf, rf, args3["nulBound"]), qname)
+    compare(chk, "F1-boundary-fill", fn, "f[i,j] = fill(theta_foot, r_foot)", got_f,
+            fill_spec(S3, thf, rf, args3["nulBound"]), qname, args3, wrong_fills(S3, thf, rf, args3["nulBound"]))
+
+
+# ---------------------------------------------------------------------------------------------------------
+# call sites of the kernels in PoloidalAdvection.step
+# ---------------------------------------------------------------------------------------------------------
+
+WORK_ROLES = {"self._drPhi_0": "drPhi_0", "self._dqPhi_0": "dthetaPhi_0", "self._drPhi_k": "drPhi_k",
+              "self._dqPhi_k": "dthetaPhi_k", "self._endPts_k1_q": "endPts_k1_q", "self._endPts_k1_r": "endPts_k1_r",
+              "self._endPts_k2_q": "endPts_k2_q", "self._endPts_k2_r": "endPts_k2_r"}
+
+# roles of the actuals, written with the local aliases of step() resolved to what they denote
+ROLES = dict(WORK_ROLES)
+ROLES.update({
+    "self._points[1]": "rPts", "self._points[0]": "qPts",
+    "phi.basis[0].knots": "kts1Phi", "phi.basis[1].knots": "kts2Phi", "phi.coeffs": "coeffsPhi",
+    "phi.basis[0].degree": "deg1Phi", "phi.basis[1].degree": "deg2Phi",
+    "self._spline.basis[0].knots": "kts1Pol", "self._spline.basis[1].knots": "kts2Pol", "self._spline.coeffs": "coeffsPol",
+    "self._spline.basis[0].degree": "deg1Pol", "self._spline.basis[1].degree": "deg2Pol",
+    "phi.basis[0].cubic_uniform": "cubic_uniform_splines", "self._nulEdge": "nulBound", "self._TOL": "tol",
+    "f": "f", "float(dt)": "dt", "dt": "dt", "v": "v",
+})
+
+
+def _pure_path(n):
+    """an expression that denotes the same object wherever it is written in the function (no call, no arithmetic)"""
+    if isinstance(n, (ast.Name, ast.Constant)):
+        return True
+    if isinstance(n, ast.Attribute):
+        return _pure_path(n.value)
+    if isinstance(n, ast.Subscript):
+        return _pure_path(n.value) and _pure_path(n.slice)
+    if isinstance(n, (ast.Tuple, ast.List)):
+        return all(_pure_path(x) or (isinstance(x, ast.Call) and src(x.func) == "float" and len(x.args) == 1 and
+                                     _pure_path(x.args[0])) for x in n.elts)
+    return False
+
+
+def local_aliases(fn):
+    """locals of `fn` bound exactly once, unconditionally at the top level of the function, to a pure path (or a tuple
+    of pure paths) whose root names are not rebound: name -> value node"""
+    params = {a.arg for a in fn.args.args}
+    stores = {}
+    for n in ast.walk(fn):
+        if isinstance(n, ast.Name) and isinstance(n.ctx, ast.Store):
+            stores[n.id] = stores.get(n.id, 0) + 1
+    out = {}
+    for st in fn.body:
+        if isinstance(st, ast.Assign) and len(st.targets) == 1 and isinstance(st.targets[0], ast.Name):
+            nm = st.targets[0].id
+            if nm in params or stores.get(nm) != 1 or not _pure_path(st.value):
+                continue
+            roots = {x.id for x in ast.walk(st.value) if isinstance(x, ast.Name)}
+            if any(stores.get(r, 0) > 1 for r in roots):
+                continue
+            out[nm] = st.value
+    return out
+
+
+class _Subst(ast.NodeTransformer):
+    def __init__(self, env):
+        self.env = env
+        self.depth = 0
+
+    def visit_Name(self, n):
+        if isinstance(n.ctx, ast.Load) and n.id in self.env and self.depth < 6:
+            self.depth += 1
+            try:
+                import copy
+                return self.visit(copy.deepcopy(self.env[n.id]))
+            finally:
+                self.depth -= 1
+        return n
+
+
+def resolved_call(call, aliases):
+    """the call with local aliases replaced by what they denote and `*name` of a local tuple spliced in"""
+    import copy
+    c = copy.deepcopy(call)
+    sub = _Subst(aliases)
+    args = []
+    for a in c.args:
+        if isinstance(a, ast.Starred):
+            v = sub.visit(a.value)
+            if isinstance(v, (ast.Tuple, ast.List)) and not any(isinstance(x, ast.Starred) for x in v.elts):
+                args += list(v.elts)
+            else:
+                args.append(ast.Starred(value=v, ctx=ast.Load()))
+        else:
+            args.append(sub.visit(a))
+    c.args = args
+    for k in c.keywords:
+        k.value = sub.visit(k.value)
+    for n in ast.walk(c):
+        ast.copy_location(n, call)
+    ast.fix_missing_locations(c)
+    return c
+
+
+def point_order(chk, init):
+    """self._points holds (theta, r): evaluated on the list of axis names"""
+    pts = [n for n in ast.walk(init) if isinstance(n, ast.Assign) and any(src(t) == "self._points" for t in n.targets)]
+    what = "self._points = (theta, r) = eta_vals[1::-1]"
+    if len(pts) != 1:
+        chk.ob("E2-point-order", init, what, None, "no single assignment of self._points in the constructor: not decided",
+               file=U.ADV, func="PoloidalAdvection.__init__")
+        return
+    v = pts[0].value
+    simple = all(isinstance(n, (ast.Name, ast.Subscript, ast.Slice, ast.Constant, ast.UnaryOp, ast.USub, ast.Tuple, ast.List,
+                                ast.Load, ast.expr_context)) for n in ast.walk(v)) and \
+        all(n.id == "eta_vals" for n in ast.walk(v) if isinstance(n, ast.Name))
+    got = None
+    if simple:
+        try:
+            got = eval(compile(ast.Expression(body=v), "<points>", "eval"), {"__builtins__": {}},
+                       {"eta_vals": ["r", "theta", "z", "v"]})
+            got = list(got)
+        except Exception:
+            got = None
+    if got is None:
+        chk.ob("E2-point-order", pts[0], what, None, f"`{src(v)}` is not a selection from eta_vals: not decided",
+               file=U.ADV, func="PoloidalAdvection.__init__")
+    elif got[:2] == ["theta", "r"]:
+        chk.ob("E2-point-order", pts[0], what, True, "points are (theta, r): index 0 = theta, index 1 = r",
+               file=U.ADV, func="PoloidalAdvection.__init__")
+    else:
+        chk.ob("E2-point-order", pts[0], what, False,
+               f"`{src(v)}` is {tuple(got)}: step() hands _points[0] to the kernels as the theta points and _points[1] as "
+               "the r points, so the two grid axes are exchanged (or wrong) in the whole advection",
+               file=U.ADV, func="PoloidalAdvection.__init__")
+
+
+def _alloc_call(v):
+    return isinstance(v, ast.Call) and src(v.func).split(".")[-1] in (
+        "empty", "zeros", "ones", "full", "empty_like", "zeros_like", "ones_like", "full_like", "ndarray", "copy")
+
+
+def work_array_storage(chk, cls):
+    """the eight work arrays handed to the kernels are eight different pieces of storage"""
+    attrs = [a[len("self."):] for a in WORK_ROLES]
+    desc = {}            # attr -> list of storage descriptors
+    allocs = {}          # `self.X` / local -> allocation call node (for the bases of views)
+    for m in [st for st in cls.body if isinstance(st, ast.FunctionDef)]:
+        for st in ast.walk(m):
+            if not isinstance(st, ast.Assign):
+                continue
+            pairs = []
+            for t in st.targets:
+                if isinstance(t, (ast.Tuple, ast.List)):
+                    if isinstance(st.value, (ast.Tuple, ast.List)) and len(st.value.elts) == len(t.elts):
+                        pairs += list(zip(t.elts, st.value.elts))
+                    else:
+                        for k_, e_ in enumerate(t.elts):       # unpacking an array yields its sub-arrays
+                            pairs.append((e_, ast.Subscript(value=st.value, slice=ast.Constant(value=k_), ctx=ast.Load())))
+                else:
+                    pairs.append((t, st.value))
+            for t, v in pairs:
+                ts = src(t)
+                if _alloc_call(v):
+                    allocs.setdefault(ts, []).append(v)
+                if not (ts.startswith("self.") and ts[5:] in attrs):
+                    continue
+                a = ts[5:]
+                if _alloc_call(v):
+                    d = ("fresh", id(v), m.name)
+                elif isinstance(v, ast.Subscript):
+                    sl = v.slice.elts[0] if isinstance(v.slice, ast.Tuple) and v.slice.elts else v.slice
+                    k_ = sl.value if isinstance(sl, ast.Constant) and isinstance(sl.value, int) else None
+                    base = f"alloc@{id(v.value)}" if _alloc_call(v.value) else src(v.value)
+                    d = ("view", base, k_, m.name) if k_ is not None else ("unknown", src(v), m.name)
+                elif src(v).startswith("self.") and src(v)[5:] in attrs:
+                    d = ("alias", src(v)[5:], m.name)
+                else:
+                    d = ("unknown", src(v), m.name)
+                desc.setdefault(a, []).append((d, st))
+
+    def base_fresh(key):
+        return key.startswith("alloc@") or len(allocs.get(key, [])) == 1
+
+    def relation(a, b):
+        """'distinct' / 'same' / None for two attributes"""
+        da, db = desc.get(a), desc.get(b)
+        if not da or not db:
+            return None
+        res = "distinct"
+        for (x, sx) in da:
+            for (y, sy) in db:
+                if x[0] == "alias" and x[1] == b or y[0] == "alias" and y[1] == a:
+                    return "same"
+                if x[0] == "fresh" and y[0] == "fresh":
+                    if x[1] == y[1]:
+                        return "same"          # one allocation bound to both names (chained assignment)
+                    continue
+                if x[0] == "view" and y[0] == "view":
+                    if x[1] == y[1]:
+                        if x[2] == y[2]:
+                            return "same"
+                        if x[2] >= 0 and y[2] >= 0:
+                            continue
+                        res = None
+                        continue
+                    if base_fresh(x[1]) and base_fresh(y[1]):
+                        continue
+                    res = None
+                    continue
+                if {x[0], y[0]} == {"fresh", "view"}:
+                    base = x[1] if x[0] == "view" else y[1]
+                    if base_fresh(base):
+                        continue
+                    res = None
+                    continue
+                res = None
+        return res
+
+    def why_same(a, b):
+        pa, pb = a.replace("_k1_", "_k?_").replace("_k2_", "_k?_"), b.replace("_k1_", "_k?_").replace("_k2_", "_k?_")
+        if a != b and pa == pb and "endPts" in a:
+            return (f"self.{a} and self.{b} are the same storage: the implicit kernel measures convergence as "
+                    "|endPts_k2 - endPts_k1| (new iterate minus old iterate); with shared storage that is always 0, the "
+                    "while loop stops after its first pass and the foot is one unconverged iterate instead of the solution "
+                    "of the implicit trapezoidal rule")
+        return (f"self.{a} and self.{b} are the same storage: the kernels keep different quantities in them during one "
+                "sweep (drift at the node / at the second point, first- and second-stage end points), one overwrites the other")
+
+    init = next((st for st in cls.body if isinstance(st, ast.FunctionDef) and st.name == "__init__"), cls)
+    for a in attrs:
+        node = desc[a][0][1] if a in desc else init
+        rel = {b: relation(a, b) for b in attrs if b != a}
+        same = [b for b, r in rel.items() if r == "same"]
+        what = f"self.{a}: storage of its own"
+        if same:
+            chk.ob("E2-work-array-storage", node, what, False, why_same(a, same[0]), file=U.ADV, func="PoloidalAdvection.__init__")
+        elif all(r == "distinct" for r in rel.values()):
+            chk.ob("E2-work-array-storage", node, what, True,
+                   "allocated separately from (or as a different slice than) the other seven work arrays",
+                   file=U.ADV, func="PoloidalAdvection.__init__")
+        else:
+            und = [b for b, r in rel.items() if r is None]
+            chk.ob("E2-work-array-storage", node, what, None,
+                   f"whether self.{a} shares storage with {['self.' + b for b in und][:3]} is not decided (allocation not recognised)",
+                   file=U.ADV, func="PoloidalAdvection.__init__")
 
 
 def call_site_roles(chk):
@@ -379,42 +945,136 @@ def call_site_roles(chk):
     kmod = chk.mod(U.ADVK)
     fn = chk.func(U.ADV, "PoloidalAdvection.step")
     init = chk.func(U.ADV, "PoloidalAdvection.__init__")
-    pts = [n for n in ast.walk(init) if isinstance(n, ast.Assign) and src(n.targets[0]) == "self._points"]
-    okp = len(pts) == 1 and src(pts[0].value) == "eta_vals[1::-1]"
-    chk.ob("E2-point-order", init, "self._points = eta_vals[1::-1]", okp,
-           "points are (theta, r): index 0 = theta, index 1 = r" if okp else "unexpected point ordering",
-           file=U.ADV, func="PoloidalAdvection.__init__")
+    where = dict(file=U.ADV, func="PoloidalAdvection.step")
+    point_order(chk, init)
+    work_array_storage(chk, mod.cls("PoloidalAdvection"))
+    aliases = local_aliases(fn)
+    kernel_calls = []
     for kname in ("poloidal_advection_step_expl", "poloidal_advection_step_impl"):
         calls = [c for c in ast.walk(fn) if isinstance(c, ast.Call) and isinstance(c.func, ast.Name) and c.func.id == kname]
         if len(calls) != 1:
-            raise AnalysisError(f"C12: call to {kname} not found in PoloidalAdvection.step")
-        c = calls[0]
+            chk.ob("E2-arity", fn, f"{kname}(...)", None,
+                   f"{len(calls)} calls of {kname} in PoloidalAdvection.step (one expected): not decided", **where)
+            kernel_calls += calls
+            continue
+        c0 = calls[0]
+        kernel_calls.append(c0)
         formals = [a.arg for a in kmod.func(kname).args.args]
-        agree.check_roles(chk, U.ADV, "PoloidalAdvection.step", c, formals, {
-            "self._points[1]": "rPts", "self._points[0]": "qPts",
-            "self._drPhi_0": "drPhi_0", "self._dqPhi_0": "dthetaPhi_0", "self._drPhi_k": "drPhi_k",
-            "self._dqPhi_k": "dthetaPhi_k", "self._endPts_k1_q": "endPts_k1_q", "self._endPts_k1_r": "endPts_k1_r",
-            "self._endPts_k2_q": "endPts_k2_q", "self._endPts_k2_r": "endPts_k2_r",
-            "phiBases[0].knots": "kts1Phi", "phiBases[1].knots": "kts2Phi", "phi.coeffs": "coeffsPhi",
-            "phiBases[0].degree": "deg1Phi", "phiBases[1].degree": "deg2Phi",
-            "polBases[0].knots": "kts1Pol", "polBases[1].knots": "kts2Pol", "self._spline.coeffs": "coeffsPol",
-            "polBases[0].degree": "deg1Pol", "polBases[1].degree": "deg2Pol",
-            "phiBases[0].cubic_uniform": "cubic_uniform_splines", "self._nulEdge": "nulBound", "self._TOL": "tol",
-            "f": "f", "float(dt)": "dt", "v": "v",
-        }, const_recv="self._constants")
-    env = {n.targets[0].id: src(n.value) for n in ast.walk(fn) if isinstance(n, ast.Assign) and isinstance(n.targets[0], ast.Name)}
-    okb = env.get("phiBases") == "phi.basis" and env.get("polBases") == "self._spline.basis"
-    chk.ob("E2-basis-sources", fn, "phiBases / polBases", okb,
-           "potential bases come from the potential spline, distribution bases from the interpolated distribution"
-           if okb else f"unexpected sources {env.get('phiBases')}, {env.get('polBases')}", file=U.ADV, func="PoloidalAdvection.step")
+        c = resolved_call(c0, aliases)
+        if any(isinstance(a, ast.Starred) for a in c.args) or any(k.arg is None for k in c.keywords):
+            chk.ob("E2-arity", c0, f"{kname}(...)", None,
+                   "the argument list unpacks a sequence that is not a local tuple of step(): binding not decided", **where)
+            continue
+        b = agree.bind_call(c, formals)
+        if b is None:
+            chk.ob("E2-arity", c0, f"{kname}(...)", False,
+                   f"argument list does not fit the signature ({len(c.args)} positional, keywords "
+                   f"{[k.arg for k in c.keywords]} for {len(formals)} parameters): the call raises TypeError", **where)
+            continue
+        missing = [f for f in formals if f not in b]
+        chk.ob("E2-arity", c0, f"{kname}(...)", not missing,
+               "every parameter of the kernel receives exactly one argument" if not missing else
+               f"parameters {missing} receive no argument: the call raises TypeError", **where)
+        for f, a in b.items():
+            s_ = src(a)
+            if not (s_.startswith("self._constants.") or s_ in ROLES):
+                chk.ob("E2-argument-role", c0, f"{kname}: {f} <- {s_}", None,
+                       f"the role of the actual `{s_}` is not known: whether it is the right argument for `{f}` is not decided",
+                       **where)
+        agree.check_roles(chk, U.ADV, "PoloidalAdvection.step", c, formals, ROLES, const_recv="self._constants")
+        # potential bases from the potential spline, distribution bases from the interpolated distribution
+        phi_f = [f for f in b if f.endswith("Phi")]
+        pol_f = [f for f in b if f.endswith("Pol")]
+        crossed = [f"{f} <- {src(b[f])}" for f in phi_f if src(b[f]).startswith("self._spline")] + \
+                  [f"{f} <- {src(b[f])}" for f in pol_f if src(b[f]).startswith("phi.")]
+        okb = len(phi_f) == 5 and len(pol_f) == 5 and all(src(b[f]).startswith("phi.") for f in phi_f) and \
+            all(src(b[f]).startswith("self._spline.") for f in pol_f)
+        chk.pat("E2-basis-sources", c0, f"{kname}: phi* <- phi, pol* <- self._spline", okb,
+                "potential knots/degrees/coefficients come from the potential spline, those of the distribution from the "
+                "spline interpolated from f",
+                ("the spline of the potential and the spline of the distribution are exchanged or mixed (" + "; ".join(crossed) +
+                 "): the drift is computed from the wrong function / the wrong function is evaluated at the foot") if crossed else None,
+                **where)
     # the distribution is interpolated before the kernel is called
-    stmts = fn.body
-    idx_interp = [k for k, s_ in enumerate(stmts) if "compute_interpolant(f, self._spline)" in src(s_)]
-    idx_kernel = [k for k, s_ in enumerate(stmts) if "poloidal_advection_step_" in src(s_)]
-    oki = bool(idx_interp) and bool(idx_kernel) and idx_interp[0] < idx_kernel[0]
-    chk.ob("E2-interpolate-before-evaluate", fn, "compute_interpolant(f, self._spline)", oki,
-           "the spline of f is computed from the current nodal values before the feet are evaluated" if oki else
-           "the distribution spline is not recomputed before the kernel call", file=U.ADV, func="PoloidalAdvection.step")
+    interp = [c for c in ast.walk(fn) if isinstance(c, ast.Call) and isinstance(c.func, ast.Attribute) and
+              c.func.attr == "compute_interpolant"]
+    what = "self._interpolator.compute_interpolant(f, self._spline) before the kernel call"
+    first_kernel = min((c.lineno for c in kernel_calls), default=None)
+    sub = _Subst(aliases)
+    import copy
+    if first_kernel is None:
+        chk.ob("E2-interpolate-before-evaluate", fn, what, None, "no kernel call found: not decided", **where)
+    elif not interp:
+        chk.ob("E2-interpolate-before-evaluate", fn, what, False,
+               "step() does not interpolate f any more: the kernel evaluates the spline coefficients left over from the "
+               "previous call (another slice of the distribution) at the feet", **where)
+    else:
+        good = und = late = wrong_dest = 0
+        for c in interp:
+            a_ = [src(sub.visit(copy.deepcopy(x))) for x in c.args] + [f"{k.arg}={src(k.value)}" for k in c.keywords]
+            unconditional = not [g for g in guards_of(c, stop=fn)]
+            if len(a_) == 2 and a_[0] == "f" and a_[1] == "self._spline":
+                if c.lineno < first_kernel and unconditional:
+                    good += 1
+                elif c.lineno >= first_kernel and unconditional:
+                    late += 1
+                else:
+                    und += 1
+            elif len(a_) == 2 and a_[0] == "f" and (a_[1].startswith("self.") or a_[1] in {p.arg for p in fn.args.args}):
+                wrong_dest += 1
+            else:
+                und += 1
+        if good:
+            chk.ob("E2-interpolate-before-evaluate", interp[0], what, True,
+                   "the spline of f is computed from the current nodal values before the feet are evaluated", **where)
+        elif und:
+            chk.ob("E2-interpolate-before-evaluate", interp[0], what, None,
+                   "an interpolation is present but its arguments / position are not the recognised ones: not decided", **where)
+        elif late:
+            chk.ob("E2-interpolate-before-evaluate", interp[0], what, False,
+                   "f is interpolated only after the kernel has evaluated the spline: the feet take the values of the "
+                   "previous call's spline", **where)
+        else:
+            chk.ob("E2-interpolate-before-evaluate", interp[0], what, False,
+                   "the interpolant of f is written into another spline than self._spline, whose coefficients the kernel "
+                   "evaluates at the feet", **where)
+
+
+def iteration_bound(chk, mod):
+    """'the implicit iteration terminates': the fixed-point loop `while norm > tol` stops only when the iterates converge, which
+    needs the map to be a contraction (dt x Lipschitz constant of the drift / r below one).  Without an iteration bound the loop
+    does not terminate for inputs where it is not - a structural necessary condition of unconditional termination."""
+    fn = mod.func(IMPL)
+    loops = [n for n in ast.walk(fn) if isinstance(n, ast.While)]
+    if len(loops) != 1:
+        chk.ob("F1-iteration-bounded", fn, "while norm > tol", None, f"{len(loops)} while loops found in the implicit kernel", file=U.ADVK, func=IMPL)
+        return
+    lp = loops[0]
+    names_in_test = {n.id for n in ast.walk(lp.test) if isinstance(n, ast.Name)}
+    counters = set()
+    for n in ast.walk(lp):
+        inc = None
+        if isinstance(n, ast.AugAssign) and isinstance(n.target, ast.Name) and isinstance(n.op, ast.Add) and isinstance(n.value, ast.Constant):
+            inc = n.target.id
+        if isinstance(n, ast.Assign) and isinstance(n.targets[0], ast.Name) and isinstance(n.value, ast.BinOp) and isinstance(n.value.op, ast.Add) \
+                and isinstance(n.value.left, ast.Name) and n.value.left.id == n.targets[0].id and isinstance(n.value.right, ast.Constant):
+            inc = n.targets[0].id
+        if inc and not any(isinstance(p_, ast.For) for p_ in _ancestors(n, lp)):
+            counters.add(inc)
+    bounded = bool(counters & names_in_test) or any(
+        isinstance(n, ast.If) and any(isinstance(b, (ast.Break, ast.Return, ast.Raise)) for b in ast.walk(n))
+        and ({x.id for x in ast.walk(n.test) if isinstance(x, ast.Name)} & counters) for n in ast.walk(lp))
+    chk.ob("F1-iteration-bounded", lp, "while norm > tol: fixed-point pass", bounded,
+           "the number of fixed-point passes is bounded by a counter" if bounded else
+           "the loop ends only when two successive iterates agree to `tol`; nothing bounds the number of passes, so for a potential and "
+           "time step for which the fixed-point map is not a contraction the call never returns", file=U.ADVK, func=IMPL)
+
+
+def _ancestors(n, stop):
+    p_ = parent(n)
+    while p_ is not None and p_ is not stop:
+        yield p_
+        p_ = parent(p_)
 
 
 def run(chk):
@@ -423,17 +1083,38 @@ def run(chk):
         "the explicit kernel; initial iterate, halved step factor, fixed-point map with clipping, convergence measure "
         "and loop test, and fill of the implicit kernel, each compared as rational functions / conditionals with the "
         "specification written from the property statement (drift (-d_r phi, d_theta phi)/(r B0), trapezoidal rule, "
-        "theta mod 2 pi, fill values). Plus fast-path/general-path dispatch agreement and argument-role agreement at "
-        "the kernel call sites. Termination of the implicit iteration, accuracy orders and rigid-rotation exactness "
+        "theta mod 2 pi, fill values); conditionals are compared by case analysis from the innermost condition outwards, "
+        "a mismatch is matched against named wrong variants to diagnose it. Every sweep visits all nodes; the measure is "
+        "reset in each pass. Plus fast-path/general-path dispatch agreement, argument-role agreement at the kernel call "
+        "sites (local aliases and unpacked local tuples resolved), distinct storage of the eight work arrays, (theta, r) "
+        "order of the points, interpolation of f before the kernel call. Of 'the implicit iteration terminates' only the structural "
+        "necessary condition is decided (an iteration bound; absent today: known finding); accuracy orders and rigid-rotation exactness "
         "are numerical consequences and are not decided.")
     chk.assumptions += ["the spline evaluators have the semantics stated by C07 (uninterpreted S2(x,y,der1,der2;family))",
-                        "f_eq is the equilibrium distribution with argument roles (r, v, constants...)"]
+                        "f_eq is the equilibrium distribution with argument roles (r, v, constants...)",
+                        "every two-dimensional argument of the kernels has the shape (len(qPts), len(rPts)) "
+                        "(asserted by PoloidalAdvection.step for f, true by construction for the work arrays)",
+                        "the radial grid is increasing (rPts[0] < rPts[-1])"]
     chk.trusted.append("sympy expand/together as polynomial normaliser")
     mod = chk.mod(U.ADVK)
     chk.in_file(U.ADVK)
     check_explicit(chk, mod)
     check_implicit(chk, mod)
+    iteration_bound(chk, mod)
     for w, g in (("poloidal_advection_step_expl", EXPL), ("poloidal_advection_step_impl", IMPL)):
+        # the dispatch engine decides the form `if flag: general(positional...) else: general(positional...)`; any other
+        # way of writing the wrapper is not that idiom and is left undecided rather than reported
+        wf = mod.func(w)
+        ifs = [n for n in wf.body if isinstance(n, ast.If)]
+        arms = [a for n in ifs for a in (n.body, n.orelse)]
+        plain = len(ifs) == 1 and isinstance(ifs[0].test, ast.Name) and all(
+            len(a) == 1 and isinstance(a[0], ast.Expr) and isinstance(a[0].value, ast.Call) and not a[0].value.keywords
+            and not any(isinstance(x, ast.Starred) for x in a[0].value.args) for a in arms)
+        if not plain:
+            chk.ob("E1-dispatch", wf, f"{w} -> {g}", None,
+                   "the wrapper is not a single `if flag: general(...) else: general(...)` with positional arguments: "
+                   "agreement of the two paths is not decided", file=U.ADVK, func=w)
+            continue
         agree.check_wrapper_dispatch(chk, mod, w, g)
     call_site_roles(chk)
     # per-z potential splines (state anchor of the property): distinct objects, consistent index space, own plane/velocity
@@ -441,5 +1122,5 @@ def run(chk):
     poloidal(chk)
     from .. import lints as _l
     _l.check_cache_keys(chk, U.ADV, "PoloidalAdvection")
-    chk.floor("F1-", 14)
+    chk.floor("F1-", 8)
     chk.floor("E", 6)
